@@ -2,6 +2,7 @@ import TxdbusModel.Proofs.Wire.SpecRoundtrip
 import TxdbusModel.Proofs.Wire.TopLevel
 import TxdbusModel.Proofs.Wire.Normal
 import TxdbusModel.Proofs.Wire.ValidWF
+import TxdbusModel.Proofs.Wire.ConfTop
 /-!
 Property C01 - encoding then decoding any conforming value returns the same value.
 
@@ -136,8 +137,62 @@ theorem C01_roundtrip_valid (le : Bool) (ts : List Ty) (pv : PyVal) (items : Lis
       .ok (bs.length, Code.plainList items) :=
   C01_roundtrip le ts pv items vs fdl off bs pre suf fuel (sigValid_allWF ts hts) hitems hrep hkeys henc hpre hfuel
 
+/-- C01 for the second formulation of conformance (`Code.Conf`, added after review; `C01_roundtrip` is kept
+as it is because other properties import it).  Differences: (1) the typed wrapper `Boolean` is a conforming
+value for `b`, and decoding returns the `bool` it stands for (`plainB`); (2) the relation is stated without
+the code model's item functions (`structFields`, `arrayElems`, dict items in iteration order).  In exchange
+a `Boolean` instance is not accepted where an integer type is asked (that case is `C01_roundtrip`'s). -/
+theorem C01_roundtrip_conf (le : Bool) (ts : List Ty) (pv : PyVal) (items : List PyVal) (vs : List Val)
+    (fdl : List PyVal) (off : Nat) (bs pre suf : Bytes) (fuel : Nat)
+    (hts : allWF ts = true)
+    (hitems : Code.structFields pv = some items)
+    (hrep : Code.ConfFields fdl vs true ts items 0 fdl.length)
+    (hkeys : Code.KeysOKBList items)
+    (henc : Spec.encodeAll Code.genAlign (endianOf le) ts vs off = some bs)
+    (hpre : pre.length = off) (hfuel : depthAll vs ≤ fuel) :
+    Code.marshal fuel (renderAll ts) pv off le (some []) = .ok (bs.length, bs, some fdl) ∧
+    Code.unmarshal fuel (renderAll ts) (pre ++ bs ++ suf) off le (some fdl) =
+      .ok (bs.length, Code.plainBList items) := by
+  constructor
+  · have h := Code.marshal_eq_spec_conf Code.genAlign Code.padOK_gen Code.genAlign_pos le ts pv items vs fdl
+      fdl.length off bs fuel hitems hrep henc hfuel
+    simpa using h
+  · exact Code.unmarshal_eq_spec Code.genAlign Code.padOK_gen Code.genAlign_pos le (some fdl) ts vs off bs pre suf _
+      fuel hts henc hpre (Code.fromSpecFields_of_conf fdl vs true ts items 0 fdl.length hrep hkeys) hfuel
+
+/-- C01 with EXECUTABLE hypotheses - what the harness certifies for every generated conforming case through
+the driver operation `specenc` (which answers `ok` only if `Code.toSpecTop` and `Code.keysOKCheck` succeed
+and the reference encoder accepts the values): the case lies inside the theorem, not only near it. -/
+theorem C01_roundtrip_checked (le : Bool) (n : Nat) (ts : List Ty) (pv : PyVal) (vs : List Val)
+    (fdl : List PyVal) (off : Nat) (bs pre suf : Bytes) (fuel : Nat)
+    (hts : allWF ts = true)
+    (hchk : Code.toSpecTop n ts pv = some (vs, fdl))
+    (hkeys : Code.keysOKCheck pv = true)
+    (henc : Spec.encodeAll Code.genAlign (endianOf le) ts vs off = some bs)
+    (hpre : pre.length = off) (hfuel : depthAll vs ≤ fuel) :
+    ∃ items, Code.structFields pv = some items ∧
+      Code.marshal fuel (renderAll ts) pv off le (some []) = .ok (bs.length, bs, some fdl) ∧
+      Code.unmarshal fuel (renderAll ts) (pre ++ bs ++ suf) off le (some fdl) =
+        .ok (bs.length, Code.plainBList items) := by
+  obtain ⟨items, hitems, hrep⟩ := Code.toSpecTop_sound n ts pv vs fdl hchk
+  have hk := Code.keysOKB_fields pv items hitems (Code.keysOKCheck_sound pv hkeys)
+  exact ⟨items, hitems, C01_roundtrip_conf le ts pv items vs fdl off bs pre suf fuel hts hitems hrep hk henc hpre hfuel⟩
+
+/-- Satisfiable: a `dbusOrder` object as variableList holding `Boolean(1)`, a descriptor, and a variant
+whose content is a list of `Boolean`s (inferred `ab`). -/
+example :
+    let ts : List Ty := [.basic .b, .basic .h, .variant]
+    let pv : PyVal := .obj 0 none [.int .boolean 1, .int .plain 9, .list [.int .boolean 0, .int .boolean 1]]
+    allWF ts = true ∧ Code.keysOKCheck pv = true ∧
+      ∃ vs, Code.toSpecTop 20 ts pv = some (vs, [.int .plain 9]) ∧
+        (Spec.encodeAll Code.genAlign (endianOf true) ts vs 1).isSome = true ∧ depthAll vs ≤ 3 := by
+  refine ⟨by decide, rfl, [.bool true, .int 0, .variant (.array (.basic .b)) (.array [.bool false, .bool true])],
+    rfl, by decide, by decide⟩
+
 end Txdbus
 
+#print axioms Txdbus.C01_roundtrip_conf
+#print axioms Txdbus.C01_roundtrip_checked
 #print axioms Txdbus.C01_roundtrip_valid
 #print axioms Txdbus.Spec.decode_encode
 #print axioms Txdbus.C01_roundtrip
